@@ -220,6 +220,41 @@ fn eyes(w: &mut ZW, who: String, c: Color, toes: i32) {
     rec(w, format!("eyes({who:?},{c:?},{toes})"));
 }
 
+#[derive(Debug, Parameter)]
+#[param(regex = "cat|dog", name = "animal")]
+pub enum Animal {
+    Cat,
+    Dog,
+}
+
+impl FromStr for Animal {
+    type Err = String;
+    fn from_str(s: &str) -> Result<Self, String> {
+        match s {
+            "cat" => Ok(Self::Cat),
+            "dog" => Ok(Self::Dog),
+            o => Err(format!("unknown animal {o}")),
+        }
+    }
+}
+
+// several *different* custom parameters in one expression, mentioned in non-alphabetical and in
+// alphabetical order of their names
+#[when(expr = "paint {u64} in {color}")]
+fn paint_a(w: &mut ZW, n: CustomU64, c: Color) {
+    rec(w, format!("paint_a({},{c:?})", n.0));
+}
+
+#[then(expr = "paint {color} with {u64} coat(s)")]
+fn paint_b(w: &mut ZW, c: Color, n: CustomU64) {
+    rec(w, format!("paint_b({c:?},{})", n.0));
+}
+
+#[given(expr = "a {color} {animal} and {u64} more")]
+fn three_custom(w: &mut ZW, c: Color, a: Animal, n: CustomU64) {
+    rec(w, format!("three_custom({c:?},{a:?},{})", n.0));
+}
+
 #[when(regex = r"^colors (red|green|blue) (red|green|blue)$")]
 fn colors(w: &mut ZW, v: &[Color]) {
     rec(w, format!("colors({v:?})"));
@@ -310,6 +345,19 @@ pub fn entries() -> Vec<Entry> {
             let col = match g(c, 2) { "red" => "Red", "green" => "Green", _ => "Blue" };
             g(c, 3).parse::<i32>().ok().map(|t| format!("eyes({:?},{col},{t})", g(c, 1)))
         }, templates: &["{w} has {c} eyes and {n} toes", "{w} has {c} eyes and 1 toe"] },
+        Entry { func: "paint_a", kw: When, re: r"^paint (\d+) in (red|green|blue)$", expect: |c, _| {
+            let col = match g(c, 2) { "red" => "Red", "green" => "Green", _ => "Blue" };
+            g(c, 1).parse::<u64>().ok().map(|n| format!("paint_a({n},{col})"))
+        }, templates: &["paint {n} in {c}", "paint {n} in cat"] },
+        Entry { func: "paint_b", kw: Then, re: r"^paint (red|green|blue) with (\d+) coat(?:s)?$", expect: |c, _| {
+            let col = match g(c, 1) { "red" => "Red", "green" => "Green", _ => "Blue" };
+            g(c, 2).parse::<u64>().ok().map(|n| format!("paint_b({col},{n})"))
+        }, templates: &["paint {c} with {n} coats", "paint {c} with 1 coat"] },
+        Entry { func: "three_custom", kw: Given, re: r"^a (red|green|blue) (cat|dog) and (\d+) more$", expect: |c, _| {
+            let col = match g(c, 1) { "red" => "Red", "green" => "Green", _ => "Blue" };
+            let an = if g(c, 2) == "cat" { "Cat" } else { "Dog" };
+            g(c, 3).parse::<u64>().ok().map(|n| format!("three_custom({col},{an},{n})"))
+        }, templates: &["a {c} cat and {n} more", "a {c} dog and {n} more", "a cat {c} and {n} more"] },
         Entry { func: "colors", kw: When, re: r"^colors (red|green|blue) (red|green|blue)$", expect: |c, _| {
             let m = |s: &str| match s { "red" => "Red", "green" => "Green", _ => "Blue" };
             Some(format!("colors([{}, {}])", m(g(c, 1)), m(g(c, 2))))
